@@ -30,7 +30,11 @@ import gen_periodic  # noqa: E402  (the C06 model behind Driver/C04b.lean reads 
 PROPERTY = "C04"
 LEAN_TARGETS = ["QcelVerif.Props.C04", "QcelVerif.Driver.C04", "QcelVerif.Props.C04C06", "QcelVerif.Driver.C04b",
                 "QcelVerif.Model.FromArraysSchema", "QcelVerif.Lemmas.C04Schema", "QcelVerif.Props.C04Schema",
-                "QcelVerif.Lemmas.C04SchemaBridge", "QcelVerif.Props.C04SchemaBridge", "QcelVerif.Driver.C04c"]
+                "QcelVerif.Lemmas.C04SchemaBridge", "QcelVerif.Props.C04SchemaBridge", "QcelVerif.Driver.C04c",
+                # extension C04b: the fixed point at the default settings with no hypothesis on the atoms
+                "QcelVerif.Lemmas.C04Rd64", "QcelVerif.Props.C04DefaultNuc", "QcelVerif.Props.C04DefaultTabA",
+                "QcelVerif.Props.C04DefaultTabB", "QcelVerif.Props.C04DefaultTabC", "QcelVerif.Props.C04DefaultTabD", "QcelVerif.Props.C04DefaultTabE",
+                "QcelVerif.Props.C04Default", "QcelVerif.Props.C04DefaultText"]
 DRIVER = "QcelVerif/Driver/C04.lean"
 # second stream: the same lines through a driver that COMPUTES the per-atom reconciliation with the C06 model
 # (Model/ReconC06.lean) instead of reading the implementation's answers from the line — from_arrays end to end in Lean
@@ -136,6 +140,40 @@ THEOREMS = [
     ("QcelVerif.FromArrays.c09_roundtrip_discharged",
      "C09's MolSchema.schema_roundtrip with its from_arrays PARAMETER instantiated by the C04 model: hypothesis hfa discharged under C04's hypotheses; both dtypes incl. the dtype-1 nesting "
      "(scope: exact products, non-negative separators)"),
+    # ---- extension C04b (Lemmas/C04Rd64.lean, Props/C04DefaultNuc.lean, C04DefaultTab{A..E}.lean, C04Default.lean, C04DefaultText.lean)
+    ("QcelVerif.Nucleus.rd64_idem", "rd64 (rd64 x) = rd64 x for EVERY rational x: a binary64 number rounds to itself (with ilog2_spec: 2^ilog2(a) <= a < 2^(ilog2(a)+1)); discharges the "
+     "'rd idempotent' residual of the supplied-mass theorems for the driver's rounding function"),
+    ("QcelVerif.Nucleus.rederives_of_A_clue",
+     "ANY table with (T1) every tabulated mass rounds half-even to its mass number and (T2) no element's default mass within B of another of its nuclides [IsotopesReDerive], ANY odd rounding "
+     "function, nonphysical=False, 0 <= mtol <= B, a mass-number clue (argument or label) and NO mass clue: the returned mass is the tabulated mass of E+str(A) and, read back as a mass clue, "
+     "suggests exactly the returned A"),
+    ("QcelVerif.FromArrays.selfConsistent_of_A_clue", "the same through the C04 adapter: the answer to clues with a mass number and no mass is SelfConsistent (odd + idempotent rounding)"),
+    ("QcelVerif.FromArrays.shipped_isotopes_rederive",
+     "[decide +kernel, every element row x every mass number of its tabulated range, 30 obligations of 4 rows] (T1)+(T2) hold for the generated periodic table under rd64 with B = 0.9865 u"),
+    ("QcelVerif.FromArrays.narrow_window_selfconsistent",
+     "C06 model, shipped table, rd64: nonphysical=False and 0 <= mtol <= 0.9865 -> EVERY successful answer (any clues, either speclabel) is SelfConsistent; no hypothesis on answer, clues or rounding"),
+    ("QcelVerif.FromArrays.default_settings_selfconsistent", "the instance at the default settings (mtol = 1.0e-3, nonphysical=False): reconcile i = ok o -> SelfConsistent o"),
+    ("QcelVerif.FromArrays.recon_c06_idem_narrow", "NucIdem restricted to nonphysical=False, 0 <= mtol <= 0.9865 — full: the answer fed back (speclabel=False) is answered by itself"),
+    ("QcelVerif.FromArrays.recon_c06_idem_default", "... at the default settings"),
+    ("QcelVerif.FromArrays.from_arrays_idempotent_narrow",
+     "fromArrays (envC06 rd64 a) i = ok r, nonphysical=False, 0 <= mtol <= 0.9865 -> fromArrays (asInput i r) = ok r: whatever was supplied (incl. a mass number without a mass), no hypothesis on the atoms"),
+    ("QcelVerif.FromArrays.from_arrays_idempotent_default", "the property's fixed-point clause at the default settings (mtol = 1.0e-3, nonphysical=False): every successful build fed back is returned unchanged"),
+    ("QcelVerif.FromArrays.from_arrays_idempotent_default_elea",
+     "non-vacuity on the formerly open class: deuterium by elea only, tritium by label '3H' only, ghost '@2h_x', oxygen — accepted [decide +kernel] and a fixed point BY THE THEOREM"),
+    ("QcelVerif.FromArrays.window_bound_sharp",
+     "[decide +kernel] the bound is sharp: at mtol = 0.9866 reconcile(A=3, E='He') returns A=3 with the mass of He-4, which is not SelfConsistent and fed back is a ValidationError (replayed on the implementation)"),
+    ("QcelVerif.FromArrays.from_arrays_window_bound_sharp", "[decide +kernel, whole pipeline] one He atom, elea=[3], mtol=0.9866: the record is returned and fed back it is refused"),
+    ("QcelVerif.FromArrays.schema_roundtrip_default",
+     "schema_roundtrip_c06_partial WITHOUT hself: record of fromArrays at the default settings (nonphysical=False on both sides), >= 1 atom, exported geometry passes the overlap screen -> "
+     "from_schema(to_schema(r, 1|2)) = schemaImage r"),
+    ("QcelVerif.FromArrays.schema_roundtrip_twice_default", "... and the second trip (either dtype) is the identity"),
+    ("QcelVerif.FromArrays.schema_roundtrip_twice_default_of_schema",
+     "EVERY record that came out of fromSchema with nonphysical=False (ANY dictionary: partial arrays, isotopes by mass_numbers only, labels) round-trips and the second trip is the identity — "
+     "schema_roundtrip_twice_c06 without 'masses given and rounded'"),
+    ("QcelVerif.TextToMol.read_write_validated_psi4_default",
+     "C07's read_write_validated_psi4 with its fixed-point hypothesis hfix replaced by 'r was built by fromArrays at the default settings' (every other hypothesis C07's, unchanged)"),
+    ("QcelVerif.TextToMol.read_write_validated_xyzplus_default", "C07's read_write_validated_xyzplus likewise"),
+    ("QcelVerif.TextToMol.text_roundtrip_same_hash_default", "C07's headline text_roundtrip_same_hash likewise: Molecule -> psi4 text -> Molecule keeps the hash for every record built at the default settings"),
 ]
 TRUSTED_BASE = [
     "Lean 4.33 kernel; axioms per theorem audited on every run (subset of propext, Classical.choice, Quot.sound)",
@@ -144,8 +182,12 @@ TRUSTED_BASE = [
     "reconcile_nucleus taken as a parameter (hypotheses NucSound / NucIdem) in Props/C04.lean; its answers travel on the line protocol of the first stream",
     "Props/C04C06.lean instantiates the parameter with the C06 model over the generated periodic table (adapter Model/ReconC06.lean: Clue->Input, Output->Nuc, error classes); "
     "NucSound is discharged in full, NucIdem is false in general and proved for self-consistent atoms / supplied masses / plain molecules; residual: rd odd (proved for rd64) "
-    "and, for the supplied-mass theorems, rd idempotent (not proved for rd64; rd64 is tied to float() by C06's D lines); the second stream (Driver/C04b.lean) runs the whole "
-    "pipeline in Lean with the C06 model and is diffed against the implementation and against the first stream",
+    "and, for the supplied-mass theorems, rd idempotent (NOW PROVED for rd64: Lemmas/C04Rd64.lean rd64_idem; rd64 itself stays tied to float() by C06's D lines); the second stream "
+    "(Driver/C04b.lean) runs the whole pipeline in Lean with the C06 model and is diffed against the implementation and against the first stream",
+    "Props/C04Default.lean: for nonphysical=False and 0 <= mtol <= 0.9865 (the default mtol = 1e-3 included) NucIdem restricted to those settings is proved with NO hypothesis on the atoms "
+    "(mass supplied / mass number without mass / neither), from two facts about the generated periodic table decided by kernel evaluation on every run the data file changes "
+    "(Props/C04DefaultTab{A..E}.lean; tools/gen_periodic.py is the translator); Mathlib is used only in Lemmas/C04Rd64.lean (zpow/floor arithmetic for rd64_idem); "
+    "Props/C04DefaultText.lean imports C07's Props/C07Full.lean read-only",
     "tools/gen_periodic.py (C01's translator) for the periodic table read by the C06 model",
     "C05 model ChgMult.vfc and its theorems vfc_sound / vfc_accepts_valid_full (reused unchanged)",
     "numpy: np.array/reshape, np.split (re-stated as Python slice arithmetic), einsum distances in double vs exact rationals (1e-9 exclusion zone)",
@@ -176,6 +218,11 @@ ASSUMPTIONS = [
     "Molecule 'with validation on' = validate=True passed explicitly, or validate=None (default) on a dictionary WITHOUT the validated stamp (molecule.py docstring: 'If None validation is always "
     "applied unless the validated flag is set'); validate=None on a stamped dictionary skips validation by documented design and is not judged",
     "call sequences vary nonphysical, mtol, tooclose (acceptance-deciding) and speclabel, zero_ghost_fragments, fragment separators, entry point (record-shaping); 3-6 calls per sequence",
+    "the unconditional fixed-point theorems (from_arrays_idempotent_narrow / _default) are for nonphysical=False and 0 <= mtol <= 0.9865 u; outside: mtol >= 0.9866 has kernel-checked "
+    "counter-examples (window_bound_sharp; mtol = 2 in Props/C04C06.lean), a negative mtol accepts nothing as 'within tolerance', and nonphysical=True with a mass number and no mass is not "
+    "covered by a theorem (the range test that bounds the table enumeration is switched off) — there the fixed point stays checked by the oracle on every generated record only",
+    "isotope stream: nonphysical=False, mtol in {1e-3 (mostly), 1e-4, 0.25, 0.5, 0.9, 0.9865}; half-way masses only when mtol >= 0.5 (no two tabulated nuclides of one element are closer "
+    "than 0.9865 u, so 'a mass within tolerance of two isotopes' does not exist at narrower windows — shipped_isotopes_rederive)",
 ]
 RULE = (
     "molecules of 0-12 atoms on a jittered lattice (coordinates with <= 10 decimals), elements over the whole table weighted to H-Ar, "
@@ -197,15 +244,27 @@ RULE = (
     "model is re-run in a fresh interpreter (oracle:history_dependent). A finding of a sequence call replays the earlier calls first. "
     "STAMPED DICTIONARIES: for every third accepted Molecule mol.dict() (validated=True) is re-validated with validate=True (fixed point) and then edited into each "
     "malformed class (overlap, contradictory mass, symbol vs atomic number, charge != sum of fragment charges, infeasible multiplicity, array length, fragments skipping / reordering atoms) and must be "
-    "refused by Molecule(validate=True, **d) and by Molecule(**d without the stamp)."
+    "refused by Molecule(validate=True, **d) and by Molecule(**d without the stamp). "
+    "ISOTOPE STREAM (the classes of Props/C04Default.lean): 1-6 atoms over the whole table, each described in one style — mass number of a NON-default (or the lightest/heaviest tabulated) isotope "
+    "without a mass by elea / by label ('2H', '@2h') / both; a mass without mass number exactly at / near (1e-9 .. 0.999 mtol) / on the edge of (mtol -4..+4 ulp) / beyond (1.5-3 mtol) the tabulated "
+    "mass of a non-default isotope, by argument or '@mass' label; a mass half-way between two adjacent isotopes (mtol >= 0.5); default — nonphysical=False, mtol mostly the default, through "
+    "from_arrays, from_schema and Molecule; diffed against both Lean drivers like every other case. EVERY accepted record of every stream is now fed back TWICE (the record returned by the first "
+    "feed-back must itself be returned unchanged: oracle:not_fixed_point_second_pass), and whenever nonphysical=False and 0 <= mtol <= 0.9865 the driver's SelfConsistent test on the model's "
+    "record must hold (instance of narrow_window_selfconsistent; a failure is reported as a broken tie)."
 )
 LEVEL_TEXT = (
     "proof for the record-level pipeline of from_arrays/from_schema/to_schema (model), parametric in the per-atom reconciler (C06) and reusing C05; "
     "with the C06 model plugged in (Props/C04C06.lean) the invariant is unconditional and the fixed point is proved for self-consistent atoms, supplied masses, "
-    "plain molecules and every second pass — partial: false for mtol wide enough to reach a neighbouring nuclide (kernel-checked counter-example), and not proved "
-    "for a mass number supplied without a mass; the schema round trip from_schema(to_schema(r, 1|2)) = r-in-Bohr is now PROVED for every record satisfying the invariant "
+    "plain molecules and every second pass; with Props/C04Default.lean the fixed point 'a validated molecule passed through validation again is returned unchanged' is now PROVED IN FULL "
+    "for the model (C06 reconciler under rd64 over the generated periodic table) for EVERY successful build with nonphysical=False and 0 <= mtol <= 0.9865 u — in particular at the default "
+    "settings — with no hypothesis on the atoms or the rounding function, including a mass number supplied without a mass (table facts decided by kernel evaluation over every element and "
+    "every mass number of its range; rd64 proved idempotent); the bound is sharp (kernel-checked counter-example at mtol = 0.9866, replayed on the implementation; the earlier one at mtol = 2); "
+    "still partial: nonphysical=True with a mass number and no mass (no theorem; oracle only), negative mtol (nothing is within tolerance); "
+    "the schema round trip from_schema(to_schema(r, 1|2)) = r-in-Bohr is PROVED for every record satisfying the invariant "
     "(any size, either stored unit, any reconciler) under three explicit hypotheses each shown necessary or decided per record (>= 1 atom; exported geometry passes the default "
-    "overlap screen; atoms re-validate under from_schema's settings — discharged for the C06 model in the same cases as the fixed point, partial in the same one), the second "
+    "overlap screen; atoms re-validate under from_schema's settings — for the C06 model under rd64 with nonphysical=False this third one is now discharged outright: "
+    "schema_roundtrip_default / _twice_default / _twice_default_of_schema), C07's end-to-end text theorems are restated for every record built at the default settings "
+    "(Props/C04DefaultText.lean: their fixed-point hypothesis discharged), the second "
     "round trip is proved to be the identity, exported_geometry_bohr and the from_schema refusal classes (unrecognised schema, non-contiguous / skipping / offset pattern, "
     "wrong array length, dropped atoms) are proved, and the C04 and C09 schema models are proved to agree (C09's from_arrays parameter discharged); formula_generator, the "
     "Angstrom->Bohr factor and the rounding of one product are parameters; the tie to the code is differential (sampled) on three streams (reconciler answers taken from the "
@@ -1046,6 +1105,121 @@ def gen_ts_special(rng):
 
 
 # ----------------------------------------------------------------------------------------
+# isotope stream (extension C04b): the classes the default-settings fixed-point theorems of Props/C04Default.lean are
+# about — a mass number WITHOUT a mass (argument / label / both), a mass WITHOUT a mass number at / near / on the edge of /
+# beyond the window of a NON-default isotope, a mass half-way between two isotopes (inside both windows once mtol >= 0.5);
+# always nonphysical=False and 0 <= mtol <= 0.9865 (the scope of from_arrays_idempotent_narrow), through all three entries.
+
+ISO_MTOL_BOUND = 0.9865
+ISO_STYLES_FA = ["A_elea", "A_label", "A_elea_and_label", "A_extreme", "mass_exact", "mass_near", "mass_edge", "mass_beyond",
+                 "mass_label", "half_way", "default"]
+
+
+def _ulps(x, k):
+    y = float(x)
+    for _ in range(abs(k)):
+        y = float(np.nextafter(y, np.inf if k > 0 else -np.inf))
+    return y
+
+
+def gen_iso(rng, entry):
+    pt = _pt()
+    n = rng.randint(1, 6)
+    st = dict(DEFAULT_ST)
+    if entry == "FA":
+        st["speclabel"] = rng.random() < 0.7
+        st["mtol"] = rng.choice([1.0e-3] * 7 + [1.0e-4, 0.25, 0.5, 0.9, ISO_MTOL_BOUND])
+    else:
+        st["speclabel"] = False
+    mtol = st["mtol"]
+    elea, elez, elem, mass, elbl, styles = [], [], [], [], [], []
+    mol_mode = rng.choice(["A", "mass"]) if entry == "MOL" else None  # Molecule arrays are typed: no None holes
+    for _ in range(n):
+        r = rng.random()
+        Z = rng.randint(1, 18) if r < 0.6 else (rng.randint(19, 54) if r < 0.85 else rng.randint(55, 117))
+        E = pt.to_E(Z)
+        isos = sorted(pt._el2a2mass[E].keys())
+        dA = pt.to_A(Z)
+        others = [a for a in isos if a != dA] or [dA]
+        A = rng.choice(others)
+        allowed = list(ISO_STYLES_FA)
+        if not st["speclabel"]:
+            allowed = [x for x in allowed if "label" not in x]
+        if mtol < 0.5:
+            allowed = [x for x in allowed if x != "half_way"]
+        if mol_mode == "A":
+            allowed = [x for x in allowed if x in ("A_elea", "A_extreme", "default")]
+        elif mol_mode == "mass":
+            allowed = [x for x in allowed if x.startswith("mass_") and "label" not in x or x == "half_way"]
+        sty = rng.choice(allowed)
+        a_clue, m_clue, lab = None, None, None
+        am = pt.to_mass(E + str(A))
+        if sty == "A_elea":
+            a_clue = A
+        elif sty == "A_label":
+            lab = str(A) + rand_case(E, rng) + rng.choice(["", "", "_t", "5"])
+        elif sty == "A_elea_and_label":
+            a_clue = A
+            lab = rng.choice(["", "@"]) + str(A) + rand_case(E, rng)
+        elif sty == "A_extreme":
+            A = rng.choice([isos[0], isos[-1]])
+            am = pt.to_mass(E + str(A))
+            a_clue = A
+        elif sty == "mass_exact":
+            m_clue = am
+        elif sty == "mass_near":
+            m_clue = am + rng.choice([1, -1]) * rng.choice([1e-9, 1e-6, 0.5 * mtol, 0.999 * mtol])
+        elif sty == "mass_edge":
+            m_clue = _ulps(am + rng.choice([1, -1]) * mtol, rng.choice([-4, -1, 0, 1, 4]))
+        elif sty == "mass_beyond":
+            m_clue = am + rng.choice([1, -1]) * min(rng.choice([1.5 * mtol, 3 * mtol]), 0.45)
+        elif sty == "mass_label":
+            ms = f"{am + rng.choice([0.0, 1e-6, -0.5 * mtol]):.8f}"
+            lab = rand_case(E, rng) + "@" + ms
+        elif sty == "half_way":
+            k = rng.randrange(len(isos) - 1) if len(isos) > 1 else 0
+            lo, hi = isos[k], isos[min(k + 1, len(isos) - 1)]
+            m_clue = (pt.to_mass(E + str(lo)) + pt.to_mass(E + str(hi))) / 2 + rng.choice([0.0, 1e-7, -1e-7, 0.01])
+        if mol_mode == "A" and a_clue is None:
+            a_clue = -1
+        if mol_mode == "mass" and m_clue is None:
+            m_clue = pt.to_mass(E)
+        elea.append(a_clue)
+        mass.append(m_clue)
+        elbl.append(lab)
+        elez.append(Z)
+        elem.append(rand_case(E, rng))
+        styles.append(sty)
+    kw = {"geom": gen_coords(rng, n)}
+    if any(x is not None for x in elea) or rng.random() < 0.2:
+        kw["elea"] = elea
+    if any(x is not None for x in mass):
+        kw["mass"] = mass
+    if st["speclabel"] and (any(x is not None for x in elbl) or rng.random() < 0.2):
+        kw["elbl"] = elbl
+    which = rng.choice(["elez", "elem", "both"]) if entry == "FA" else rng.choice(["elem", "both"])
+    if which in ("elez", "both"):
+        kw["elez"] = elez
+    if which in ("elem", "both"):
+        kw["elem"] = elem
+    if "elbl" in kw and which == "elez" and rng.random() < 0.3 and all(l is not None for l in elbl):
+        kw.pop("elez")  # every label names its element: the label alone identifies the atoms
+    schema, forms = None, {"geom": "flat"}
+    if entry == "FA":
+        kw["units"] = rng.choice(["Bohr", "Angstrom", "bohr"])
+        if n >= 2 and rng.random() < 0.3:
+            kw["fragment_separators"] = sorted(rng.sample(range(1, n), rng.choice([1, min(2, n - 1)])))
+    else:
+        schema = {"schema_name": "qcschema_molecule", "schema_version": 2, "nested": False}
+        if entry == "FS" and rng.random() < 0.3:
+            schema = {"schema_name": "qcschema_input", "schema_version": 1, "nested": True}
+        if n >= 2 and rng.random() < 0.3:
+            cut = rng.randint(1, n - 1)
+            schema["fragments"] = [list(range(0, cut)), list(range(cut, n))]
+    return {"entry": entry, "kw": kw, "st": st, "forms": forms, "schema": schema, "tag": "valid", "iso": styles}
+
+
+# ----------------------------------------------------------------------------------------
 # call sequences: the same per-atom data validated several times in ONE process under different options.
 # Validation is a function of its arguments: every call of a sequence is compared with the (stateless) model and
 # judged by the oracle as if it were the first call of a fresh process.
@@ -1391,6 +1565,12 @@ def gen_cases(ctx: Ctx):
         c = gen_ts_special(rng)
         if acceptable_case(c):
             cases.append(strip_case(c))
+    # isotope stream (A without mass / mass without A around non-default isotopes / half-way masses), default scope
+    for entry, k in (("FA", ctx.scale(60, 1200)), ("FS", ctx.scale(25, 400)), ("MOL", ctx.scale(15, 300))):
+        for _ in range(k):
+            c = gen_iso(rng, entry)
+            if acceptable_case(c):
+                cases.append(strip_case(c))
     # call sequences (consecutive in the list: `evaluate` calls the implementation in list order, in this process)
     for _ in range(ctx.scale(90, 500)):
         cases.extend(gen_sequence(rng))
@@ -1691,7 +1871,9 @@ def idem_class(kw, st):
         return "all_masses_supplied(from_arrays_idempotent_c06_masses)"
     if absent("elea") and absent("mass") and (not st["speclabel"] or absent("elbl")) and st["mtol"] >= 0:
         return "plain(from_arrays_idempotent_c06_plain)"
-    return "isotope_without_mass_or_mixed(from_arrays_idempotent_c06_partial: SelfConsistent hypothesis)"
+    if not st["nonphysical"] and 0 <= st["mtol"] <= ISO_MTOL_BOUND:
+        return "isotope_without_mass_or_mixed:nonphysical=False,0<=mtol<=0.9865(from_arrays_idempotent_narrow / _default)"
+    return "isotope_without_mass_or_mixed:nonphysical_or_wide_window(from_arrays_idempotent_c06_partial: SelfConsistent hypothesis)"
 
 
 def evaluate(ctx: Ctx, out: Outcome, cases):
@@ -1720,6 +1902,11 @@ def evaluate(ctx: Ctx, out: Outcome, cases):
                 out.count("sequence:permissive_after_strict")
         out.count("entry:" + entry)
         out.count("tag:" + case["tag"])
+        if case.get("iso"):
+            out.count(f"iso_stream:{entry}:" + ("accepted" if res[0] == "ok" else "refused:" + res[1]))
+            out.count(f"iso_stream:mtol={st['mtol']:g}")
+            for sty in case["iso"]:
+                out.count("iso_stream:atom:" + sty)
         n = len(case["kw"].get("geom") or []) // 3
         out.count(f"natoms:{n:02d}")
         nd = sum(1 for k in PER_ATOM if case["kw"].get(k) is not None)
@@ -1779,6 +1966,19 @@ def evaluate(ctx: Ctx, out: Outcome, cases):
                 not_fixed.add(idx)
                 out.violations.append(Finding("oracle:not_fixed_point", case, observed=cb[:600], expected=ci[:600],
                                               detail="from_arrays(speclabel=False, **rec) != rec: " + (first_diff(ci, cb) if back[0] == "ok" else back[2])))
+            # fed back TWICE: the record returned by the first feed-back is itself a validated molecule and must be returned
+            # unchanged again (theorems from_arrays_second_pass_c06_rd64 / from_arrays_idempotent_default)
+            if back[0] == "ok":
+                back2 = _quiet(lambda: from_arrays(**feed_back_args(back[1], fst)))
+                cb2 = canon_rec(back2[1]) if back2[0] == "ok" else "err " + back2[1]
+                out.count("fed_back_twice")
+                if cb2 != cb:
+                    out.violations.append(Finding("oracle:not_fixed_point_second_pass", case, observed=cb2[:600], expected=cb[:600],
+                                                  detail="the record returned by from_arrays(speclabel=False, **rec), fed back again, is not returned unchanged: "
+                                                  + (first_diff(cb, cb2) if back2[0] == "ok" else back2[2])))
+            if case.get("iso") and back[0] == "ok" and cb == ci:
+                for at, sty in enumerate(case["iso"]):
+                    out.count("iso_stream:record_atom:" + sty + (":A=-1" if int(rec["elea"][at]) == -1 else ":A_set"))
             bst = dict(fst)
             bst.update(speclabel=False, zgf=False)
             feedback.append((idx, enc_line("FA", rec_as_kw(rec), bst), ci))
@@ -1864,11 +2064,20 @@ def evaluate(ctx: Ctx, out: Outcome, cases):
         for (idx, _l), a in zip(sc_lines, ctx.run_model(DRIVER_C06, [l for _, l in sc_lines])):
             if a.startswith("sc T "):
                 out.count("SelfConsistent_hypothesis(from_arrays_idempotent_c06_partial):holds")
+                cst = cases[idx]["st"]
+                if not cst["nonphysical"] and 0 <= (cst["mtol"] if cases[idx]["entry"] == "FA" else 1.0e-3) <= ISO_MTOL_BOUND:
+                    out.count("narrow_window_selfconsistent:instances_evaluated")
                 if idx in not_fixed:
                     out.mismatches.append(Finding("mismatch:c06:selfconsistent_not_fixed", cases[idx], observed="implementation: record fed back differs", expected=a,
                                                   detail="every atom of the model's record is SelfConsistent (so the model's record IS a fixed point, by theorem) but the implementation's is not"))
             elif a.startswith("sc F "):
                 out.count("SelfConsistent_hypothesis(from_arrays_idempotent_c06_partial):fails")
+                cst = cases[idx]["st"]
+                mt = cst["mtol"] if cases[idx]["entry"] == "FA" else 1.0e-3
+                if not cst["nonphysical"] and 0 <= mt <= ISO_MTOL_BOUND:
+                    out.mismatches.append(Finding("mismatch:c06:narrow_window_selfconsistent", cases[idx], observed=a, expected="sc T",
+                                                  detail="the driver finds an atom of the model's record that is not SelfConsistent although nonphysical=False and 0 <= mtol <= 0.9865: "
+                                                         "contradicts the theorem narrow_window_selfconsistent (Props/C04Default.lean) — driver and proved model have drifted apart"))
             elif a.startswith("bad-op"):
                 raise RuntimeError(f"FAq/FSq line not understood by the driver: {case_key(cases[idx])[:300]}")
             else:
